@@ -73,17 +73,48 @@ def default_schedule_max(project: Project) -> float:
         raise AnalysisError("generate_accessible_color: schedule parameter vanished")
     seq = params[5]
     lists = []
-    for n in ast.walk(fi.node):
-        if isinstance(n, ast.Assign) and any(isinstance(t, ast.Name) and t.id == seq for t in n.targets) and isinstance(n.value, (ast.List, ast.Tuple)):
+    from .resolve import Scope
+    sc = Scope(project, fi)
+
+    def literal(v):
+        """numeric list literal, directly or through a module-level constant (list(...)/tuple(...) copies allowed)"""
+        if isinstance(v, ast.Call) and isinstance(v.func, ast.Name) and v.func.id in ("list", "tuple") and len(v.args) == 1:
+            v = v.args[0]
+        if isinstance(v, (ast.Name, ast.Attribute)):
+            q = sc.resolve(v)
+            if q:
+                mod, _, nm = q.rpartition(".")
+                mm = project.modules.get(mod)
+                tv = mm.top_assigns.get(nm) if mm else None
+                if isinstance(tv, (ast.List, ast.Tuple)):
+                    # a module-level schedule object: if any function mutates it, its maximum is not a constant of the program
+                    from .effects import Effects
+                    eff = Effects(project)
+                    for fq, sm in eff.sum.items():
+                        for dotted, node in sm.module_writes:
+                            if dotted == q:
+                                project.schedule_mutation = (sm.fi, node, q)
+                                return [float("inf")]
+                    v = tv
+        if isinstance(v, (ast.List, ast.Tuple)):
             vals = []
-            for e in n.value.elts:
+            for e in v.elts:
                 if not (isinstance(e, ast.Constant) and isinstance(e.value, (int, float))):
                     raise AnalysisError("generate_accessible_color: default schedule is not a list of numeric literals")
                 vals.append(float(e.value))
-            lists.append(vals)
+            return vals
+        return None
+
+    for n in ast.walk(fi.node):
+        if isinstance(n, ast.Assign) and any(isinstance(t, ast.Name) and t.id == seq for t in n.targets):
+            vals = literal(n.value)
+            if vals is not None:
+                lists.append(vals)
     d = fi.defaults().get(seq)
-    if isinstance(d, (ast.List, ast.Tuple)):
-        lists.append([float(e.value) for e in d.elts if isinstance(e, ast.Constant)])
+    if d is not None and not (isinstance(d, ast.Constant) and d.value is None):
+        vals = literal(d)
+        if vals is not None:
+            lists.append(vals)
     if len(lists) != 1 or not lists[0]:
         raise AnalysisError(f"generate_accessible_color: expected exactly one default schedule literal, found {len(lists)}")
     return max(lists[0])
